@@ -15,11 +15,11 @@ Lemma sc_loop_some (ps : list probe) : forall i c t sh, sc_loop i c t ps = Some 
   Forall (fun p => p_clu p <> []) ps.
 Proof.
   induction ps as [|p r IH]; intros i c t sh H; [constructor|]. cbn [sc_loop] in H.
-  destruct (zmax_opt (p_clu p)) as [mc|] eqn:Ec; [|discriminate].
-  destruct (mc + 1 <? 0); [discriminate|].
-  destruct (sc_loop (i + 1) (c + (mc + 1)) (t + p_ntmpl p) r) as [rest|] eqn:Er; [|discriminate].
+  destruct (n_clu_of p) as [nc|] eqn:Ec; [|discriminate].
+  destruct (nc <? 0); [discriminate|].
+  destruct (sc_loop (i + 1) (c + nc) (t + p_ntmpl p) r) as [rest|] eqn:Er; [|discriminate].
   constructor; [|eapply IH; exact Er].
-  intros E; rewrite E in Ec; discriminate.
+  intros E; unfold n_clu_of in Ec; rewrite E in Ec; discriminate.
 Qed.
 
 (* the error exits: no probe at all (assert subdirs); a probe without spikes (np.max of its empty spike_clusters; the
@@ -33,7 +33,7 @@ Proof.
   { destruct He as [E|[(_ & L2 & L3) E]]; [exact E|]. rewrite E in L2. cbn [length] in L2. rewrite <- L2 in L3.
     destruct (p_clu p); [reflexivity|discriminate]. }
   destruct (merge ps) as [m|] eqn:E; [exfalso|reflexivity].
-  unfold merge in E. destruct ps as [|p0 r0]; [discriminate|].
+  unfold merge, merge_core in E. destruct ps as [|p0 r0]; [discriminate|].
   destruct (take _ _); [|discriminate]. destruct (load_spike_arrays (map _ _) _); [|discriminate].
   destruct (load_spike_arrays (map _ _) _); [|discriminate].
   destruct (sc_loop 0 0 0 (p0 :: r0)) as [sh|] eqn:Es; [|discriminate].
